@@ -56,6 +56,10 @@ CHECKS['C05'] = (OTHER, 'symbolic execution of the real analysis.lb / Panel.lb o
     'Bounded symbolic verification of the wrapper code (what compmech itself contributes): for sizes 5..7, every null pattern class, num_eigvalues 1..25, sparse / null-column fallback / dense paths: (K+lambda KG)v=0 on the full size under the solver contract, zeros on null amplitudes, smallest positive multiplier first and ascending positives under the ascending-mu contract, no exception for admissible inputs.',
     'ARPACK/LAPACK numerics are contract stubs (that ARPACK returns the multipliers nearest 1 first, convergence, agreement of the numerical paths are outside); ConeCyl.lb outside; sizes concrete.',
     'DESIGN.md section 4 C05')
+CHECKS['C06'] = (OTHER, 'symbolic execution of the real analysis.freq / Panel.freq over symbolic matrices under a forking comparison policy (the wrapper null detection, sort and filter decide on symbolic values) with ARPACK/LAPACK contract stubs; z3 proves residual, zeros, pairing per column and positivity/ascending order after sort on every path; exceptions and residual failures replayed on the real function with scipy',
+    'Bounded symbolic verification of the wrapper code: sizes 6..9, null patterns, num_eigvalues 1..25, sparse/dense, sort on/off, reduced_dof (condensed block), second analysis after a redefinition: K v = omega^2 M v on the full size under the solver contract, zeros on removed amplitudes, ascending positive frequencies after sort, no exception for admissible inputs.',
+    'ARPACK/LAPACK numerics are contract stubs; rounding in the sort key not modelled; complex (aerodynamic) spectra outside; known finding: reduced_dof is an approximation by design.',
+    'DESIGN.md section 4 C06')
 NA = {
     'C15': 'eigenvalue monotonicity/convergence for pencils of size 48..768 is not a bounded first-order query any installed solver can decide; the algebraic ingredients (exact Hessians, exact tables, nestedness) are decided under C02-C04 and C10 (DESIGN.md section 5)',
 }
